@@ -71,6 +71,7 @@ type compiled struct {
 	fallback   []string        // constructs RE2 cannot express
 	quirk      map[string]*Prog
 	cls        classifyCache
+	r2TimedOut bool
 }
 
 // engineOf tells which implementation Compile returned, by its dynamic type.
@@ -450,6 +451,12 @@ func (c *compiled) judge(s string, v8 *bool) pairResult {
 	if c.r2 != nil {
 		if m, err := c.r2.MatchString(s); err == nil {
 			r.r2OK, r.r2 = true, m
+		} else {
+			// match timeout: regexp2 loops on a few shapes, e.g. (()+?)? on any
+			// subject. One timeout per pattern is enough: oracle (i) is dropped
+			// for the remaining subjects of this pattern.
+			c.r2 = nil
+			c.r2TimedOut = true
 		}
 	}
 	if v8 != nil && *v8 != want {
@@ -851,6 +858,9 @@ func runPattern(u *vk.Unit, ast *Node, subjects []string, tab *v8Table, tl *tall
 		}
 	}
 	u.Eval(pairs - 1)
+	if cp.r2TimedOut {
+		tl.add("patterns:regexp2-oracle-dropped-after-match-timeout", 1)
+	}
 	tl.add("pairs", pairs)
 	tl.add("pairs:undecided(ogen differs from the reference; regexp2 sides with ogen or rejects the pattern; no V8 verdict)", undecided)
 	tl.add("pairs:undecided,of-which-reproduced-by-a-known-defect-model", explained)
@@ -1106,6 +1116,9 @@ func evalCase(u *vk.Unit, t *testing.T, c patCase, tab *v8Table) *vk.Finding {
 	}
 	if st.pairs > 1 {
 		u.Eval(st.pairs - 1)
+	}
+	if cp != nil && cp.r2TimedOut {
+		u.Label("patterns:regexp2-oracle-dropped-after-match-timeout")
 	}
 	u.LabelN("pairs", st.pairs)
 	u.LabelN("pairs:undecided(ogen differs from the reference; regexp2 sides with ogen or rejects the pattern; no V8 verdict)", st.undecided)
